@@ -4,8 +4,8 @@ package storage
 // random histories of put/delete/flush over stacks of cache layers on each backend, every
 // range scan compared with a single ordered reference map. Bound: keys of 1..4 bytes over a
 // 3-letter alphabet under two 1-byte prefixes, up to 3 layers, up to 40 operations per
-// history, one put in eight stores an empty value, every scan is made twice (synchronous with full
-// keys, asynchronous with the prefix cut), VERIF_BOUNDED_ITERS histories per backend (default 400),
+// history, one put in eight stores an empty value, every scan is made three times (synchronous with full
+// keys, stopped by the consumer after a random number of entries, asynchronous with the prefix cut), VERIF_BOUNDED_ITERS histories per backend (default 400),
 // seed VERIF_SEED.
 
 import (
@@ -160,6 +160,22 @@ func TestVerifBoundedC09(t *testing.T) {
 					}
 					if !ok {
 						t.Fatalf("FAILING-INPUT backend=%s history=%v seek{prefix=%x start=%x backwards=%v} got %x want %x", name, hist, rng.Prefix, rng.Start, rng.Backwards, got, want)
+					}
+					// a scan the consumer stops early: exactly the first entries, nothing after the stop
+					if len(want) > 0 {
+						stop := 1 + r.Intn(len(want))
+						var gotStop []string
+						top.Seek(rng, func(k, v []byte) bool {
+							gotStop = append(gotStop, string(k))
+							return len(gotStop) < stop
+						})
+						ok = len(gotStop) == stop
+						for i := 0; ok && i < stop; i++ {
+							ok = gotStop[i] == want[i]
+						}
+						if !ok {
+							t.Fatalf("FAILING-INPUT backend=%s history=%v seek{prefix=%x start=%x backwards=%v} stopped after %d: got %x want %x", name, hist, rng.Prefix, rng.Start, rng.Backwards, stop, gotStop, want[:stop])
+						}
 					}
 					// the asynchronous scan with the prefix cut off the keys: same entries, same order
 					ctx, cancel := context.WithCancel(context.Background())
